@@ -229,6 +229,7 @@ func Run(spec RunSpec) *Result {
 		RepoPfx:       "github.com/semafind/semadb",
 		MaxPreempt:    spec.Preempt,
 		DelayMode:     spec.Sched == "delay",
+		FreezeMode:    spec.Sched == "freeze",
 		DetSched:      spec.Sched == "" || spec.Sched == "det",
 		ExploreSelect: spec.Select,
 		Unstub:        spec.Unstub,
